@@ -658,8 +658,10 @@ pub fn seekreplay(args: &[String]) {
             let mut local: Vec<Value> = vec![];
             let mut sd: Option<Value> = None;
             let idx = |v: &Vec<Node>| v.iter().map(|n| n.index()).collect::<Vec<u64>>();
-            let mut fetch = |w: &mut Core, rep: &mut Core, b: i64, h: i64, bytes: i64| -> Result<hypercore::Proof, String> {
+            let mut fetch = |w: &mut Core, rep: &mut Core, b: i64, h: i64, bytes: i64, upto: i64| -> Result<hypercore::Proof, String> {
                 let (rl, wl) = (rep.len(), w.len());
+                // a partial upgrade asks for a length below the writer's
+                let wl = if upto >= 0 { upto as u64 } else { wl };
                 let block = if b >= 0 { Some(RequestBlock { index: b as u64, nodes: rep.missing_nodes(b as u64).unwrap_or(0) }) } else { None };
                 let hash = if h >= 0 { Some(RequestBlock { index: h as u64, nodes: rep.missing_nodes_tree(h as u64).unwrap_or(0) }) } else { None };
                 let seek = if bytes >= 0 { Some(RequestSeek { bytes: bytes as u64 }) } else { None };
@@ -680,7 +682,8 @@ pub fn seekreplay(args: &[String]) {
                     }
                     kind => {
                         let bytes = if kind == "seek" { st[3].as_i64().unwrap() } else { -1 };
-                        match fetch(&mut w, &mut rep, st[1].as_i64().unwrap(), st[2].as_i64().unwrap(), bytes) {
+                        let (b0, h0, upto) = if kind == "partial" { (-1, -1, st[1].as_i64().unwrap()) } else { (st[1].as_i64().unwrap(), st[2].as_i64().unwrap(), -1) };
+                        match fetch(&mut w, &mut rep, b0, h0, bytes, upto) {
                             Ok(p) => {
                                 let ret = rep.apply_proof(&p);
                                 if ret["applied"] != true {
@@ -697,16 +700,18 @@ pub fn seekreplay(args: &[String]) {
             }
             let (b, h, bytes) = (j["b"].as_i64().unwrap(), j["h"].as_i64().unwrap(), j["bytes"].as_i64().unwrap());
             let wl = w.len();
-            match fetch(&mut w, &mut rep, b, h, bytes) {
+            let upto = j.get("upto").and_then(|x| x.as_i64()).unwrap_or(-1);
+            match fetch(&mut w, &mut rep, b, h, bytes, upto) {
                 Ok(p) => {
                     let got_b = p.block.as_ref().map(|x| idx(&x.nodes)).or_else(|| p.hash.as_ref().map(|x| idx(&x.nodes))).unwrap_or_default();
                     let got_s = p.seek.as_ref().map(|x| idx(&x.nodes)).unwrap_or_default();
                     let got_u = p.upgrade.as_ref().map(|x| idx(&x.nodes)).unwrap_or_default();
-                    let spec = |k: &str| -> Vec<u64> { j[k].as_array().unwrap().iter().map(|n| n.as_u64().unwrap()).collect() };
-                    if got_b != spec("block") || got_s != spec("seek") || got_u != spec("up") {
-                        sd = Some(json!({"hist":j["hist"],"b":b,"h":h,"bytes":bytes,
-                            "crate":{"block":got_b,"seek":got_s,"up":got_u},
-                            "spec":{"block":spec("block"),"seek":spec("seek"),"up":spec("up")}}));
+                    let got_x = p.upgrade.as_ref().map(|x| idx(&x.additional_nodes)).unwrap_or_default();
+                    let spec = |k: &str| -> Vec<u64> { j.get(k).and_then(|v| v.as_array()).map(|a| a.iter().map(|n| n.as_u64().unwrap()).collect()).unwrap_or_default() };
+                    if got_b != spec("block") || got_s != spec("seek") || got_u != spec("up") || got_x != spec("extra") {
+                        sd = Some(json!({"hist":j["hist"],"b":b,"h":h,"bytes":bytes,"upto":upto,
+                            "crate":{"block":got_b,"seek":got_s,"up":got_u,"extra":got_x},
+                            "spec":{"block":spec("block"),"seek":spec("seek"),"up":spec("up"),"extra":spec("extra")}}));
                     }
                     let ret = rep.apply_proof(&p);
                     if ret["applied"] != true {
